@@ -164,6 +164,16 @@ func drawC01(t *rapid.T, maxBlock, maxTotal int) C01Case {
 	}
 	maxLen = min(maxLen, maxTotal)
 	c.Data = gen.DrawRecipe(t, maxLen, "data")
+	// one case in three: data of a kind the first (non-NONE) transform of the chain actually applies to, so that
+	// the detectors' accept paths are exercised through the stream layer too (block cuts land anywhere in it)
+	if names := chainNames(c.Cfg.Transform); len(names) > 0 {
+		if aff, ok := c13Affinity[names[0]]; ok && rapid.IntRange(0, 2).Draw(t, "affine") == 0 {
+			c.Data.Kind = rapid.SampledFrom(aff).Draw(t, "affkind")
+			if c.Data.Len < 2*bs && maxLen >= 3*bs {
+				c.Data.Len += 2 * bs // several blocks: cuts between CR and LF, inside code points, inside runs
+			}
+		}
+	}
 	// lengths right at block multiples now and then
 	if rapid.IntRange(0, 7).Draw(t, "align") == 0 && c.Data.Len >= bs {
 		c.Data.Len = c.Data.Len / bs * bs
@@ -246,6 +256,36 @@ func TestC01(t *testing.T) {
 				}
 				r.RecordFailure("roundtrip", c, "", msg)
 				t.Fatalf("length-field boundary: %s on %s", msg, jsonOf(c))
+			}
+		}
+	}
+	// fixed cases around the internal chunk sizes of the entropy coders (one block of chunk + delta bytes; the byte
+	// before the chunk boundary is >= 0x40 and the chunks differ in statistics): 16 KiB HUFFMAN/ANS0, 32 KiB RANGE,
+	// 4 MiB ANS1/FPAQ
+	for _, cc := range []struct {
+		en    string
+		chunk int
+	}{{"HUFFMAN", 16384}, {"ANS0", 16384}, {"RANGE", 32768}, {"ANS1", 4 << 20}, {"FPAQ", 4 << 20}} {
+		for _, d := range []int{1, 2, 3, 2049} {
+			idx0++
+			if !r.Mine(idx0) {
+				continue
+			}
+			L := cc.chunk + d
+			c := C01Case{Cfg: gen.Config{Transform: "NONE", Entropy: cc.en, BlockSize: uint((L + 15) &^ 15), Jobs: 1, Checksum: []uint{0, 32}[idx0%2], HintClass: "absent"},
+				Data: gen.Recipe{Kind: gen.KMixed, Len: L, Seed: uint64(idx0), P1: 600, P2: gen.KSkewed, Kind2: gen.KText}, ReadJobs: uint(1 + idx0%3)}
+			r.Label("fixed:entropy-chunk-boundary")
+			if msg := runC01(r, c); msg != "" {
+				if slug := c01Known(r, c, msg); slug != "" {
+					r.Excluded(slug)
+					continue
+				}
+				if r.Survey() {
+					r.Violation(t, "roundtrip", c, "%s", msg)
+					continue
+				}
+				r.RecordFailure("roundtrip", c, "", msg)
+				t.Fatalf("entropy chunk boundary: %s on %s", msg, jsonOf(c))
 			}
 		}
 	}
